@@ -27,7 +27,8 @@ HOSTILE = [
     b"diff --git ", b"diff --git a/x b/x", b"diff --git a/x.rs b/y.rs", b"diff --cc f", b"diff -u a b",
     b"diff --git a/\xc3\xa9 b/\xc3\xa9", b"diff", b"diff --git a b c d e",
     b"--- ", b"+++ ", b"--- a/x", b"+++ b/x", b"--- a/x\t2020-01-01", b"+++ /dev/null",
-    b"rename from ", b"rename to y", b"copy from x", b"copy to ",
+    b"rename from ", b"rename to y", b"copy from x", b"copy to ", b'--- "', b'+++ "', b'rename from "', b'copy to "',
+    b'diff --git "a/x" "b/x"', b'--- "a/x', b'rename to "y',
     b"old mode ", b"new mode 100755", b"new mode 1", b"deleted file mode", b"deleted file mode 100644",
     b"new file mode 100644", b"index 1..2", b"similarity index 100%",
     b"Binary files ", b"Binary files a/x and b/x differ", b"Only in a: x",
@@ -263,6 +264,51 @@ def run_bytes(task):
             "label": label, "state": state, "args": args, "caller": caller}
 
 
+def run_deco(task):
+    """E2: every width 1..W x every decoration combination on the three header kinds, over inputs whose
+    header texts have several lengths (width == text width +-1 are the interesting points)"""
+    widths, deadline = task
+    drv = explore.get_driver()
+    viols = {}
+    n = 0
+    inputs = []
+    for name in ("a", "a.txt", "dir/file.rs", "\xe6\xbc\xa2\xe6\xbc\xa2.rs", "a-much-longer/path/to/some/file-name.txt"):
+        nm = name.encode("latin-1") if "\\x" not in name else name.encode("latin-1")
+        inputs.append(b"commit 1234567\ndiff --git a/" + nm + b" b/" + nm + b"\n--- a/" + nm + b"\n+++ b/" + nm +
+                      b"\n@@ -1,2 +1,2 @@ fn f()\n a\n-b\n+c\n")
+    inputs.append(b"commit 0123456789abcdef0123456789abcdef01234567 (HEAD -> main)\n")
+    inputs.append(b"diff --git a/x b/y\nsimilarity index 100%\nrename from x\nrename to y\ndiff --git a/m b/m\nold mode 100644\nnew mode 100755\n")
+    decos = ["box", "ul", "ol", "box ul", "box ol", "ul ol", "box ul ol", "none"]
+    for w in widths:
+        for deco in decos:
+            for ln in (False, True):
+                o = dict(BASE)
+                o.update({"width": str(w), "file-decoration-style": "blue " + deco if deco != "none" else "none",
+                          "commit-decoration-style": "yellow " + deco if deco != "none" else "none",
+                          "hunk-header-decoration-style": "blue " + deco if deco != "none" else "none",
+                          "hunk-header-style": "file line-number syntax"})
+                if ln:
+                    o["line-numbers"] = True
+                args = build_args(o)
+                try:
+                    cid = drv.mkconfig(args)
+                except explore.Rejected:
+                    continue
+                res = explore.render_robust(drv, cid, inputs, timeout=10.0)
+                drv.drop(cid)
+                for inp, r in zip(inputs, res):
+                    n += 1
+                    if isinstance(r, Exception) or r.panic:
+                        msg = str(r) if isinstance(r, Exception) else r.panic
+                        klass = "crash:%s:%s" % ("hang" if isinstance(r, Hang) else "panic", explore.crash_site(msg))
+                        if klass not in viols:
+                            v = Violation(klass, msg, inp.split(b"\n")[:-1], None, None, msg)
+                            v.args = args
+                            v.config_label = "decorations,width=%d,%s" % (w, deco)
+                            viols[klass] = v
+    return {"n": n, "violations": list(viols.values())}
+
+
 def plan(tier):
     d1 = deviations(DIMS, 1)
     hostile = []
@@ -321,6 +367,8 @@ def main(tier):
     hostile, byte_tasks, L = plan(tier)
     cap = 50 if tier == "quick" else 1200
     deadline = t0 + cap
+    wmax = 64 if tier == "quick" else 130
+    res_d = explore.pmap(run_deco, [(list(range(i, wmax + 1, 16)), deadline) for i in range(1, 17)])
     res_b = explore.pmap(run_bytes, [t + (deadline,) for t in byte_tasks])
     sharded = []
     for t in hostile:
@@ -352,6 +400,9 @@ def main(tier):
             caps.append("%s: %s" % (r["label"], r["cap_hit"]))
         if r["samples"] and len(samples) < 4:
             samples.append({"config": r["label"], "history": r["samples"][0]})
+        viols.extend(r["violations"])
+    ndeco = sum(r["n"] for r in res_d)
+    for r in res_d:
         viols.extend(r["violations"])
     nbytes = 0
     bouts = set()
@@ -398,9 +449,9 @@ def main(tier):
                                      "driver does not represent the binary" % v.klass)
     cov = {
         "states": states, "transitions": transitions,
-        "traces_validated_against_impl": renders + nbytes + ncli,
+        "traces_validated_against_impl": renders + nbytes + ncli + ndeco,
         "samples": samples + [{"byte_layer_example": "ESC [ 0 ; m as one line in 5 states"}],
-        "byte_strings_executed": nbytes, "byte_string_max_len": L, "byte_classes": len(BYTE_CLASSES),
+        "decoration_width_sweep_renders": ndeco, "byte_strings_executed": nbytes, "byte_string_max_len": L, "byte_classes": len(BYTE_CLASSES),
         "hostile_alphabet": len(HOSTILE), "max_depth": maxd, "distinct_snapshots": len(snaps),
         "distinct_step_outputs": len(outs), "distinct_byte_layer_outputs": len(bouts),
         "configurations": len(hostile), "configurations_rejected_by_delta": rejected,
